@@ -480,6 +480,14 @@ func (s *SQLiteStore) streamBatched(
 			return
 		}
 
+		// Rows fetched before a cancellation are still yielded; report the cancellation
+		// instead of taking a short batch for the normal end of the stream
+		if err := ctx.Err(); err != nil {
+			*iterErr = err
+			yield(nil, err)
+			return
+		}
+
 		// If we got fewer rows than batch size, we're done
 		if batchCount < batchSize {
 			break
